@@ -511,6 +511,11 @@ var c06iCorpus = []string{
 	"m := {\"f\" : func (x) {\n  return x + 1\n}}\n[m.f(1), m[\"f\"](2)]",
 	"l := [func () {\n  return 1\n}]\nl[0]()",
 	"len(5).x",
+	// the error of an index expression is overwritten by the call signal when a call follows
+	"func f() {\n  return 1 + \"a\"\n}\nl := [1]\nr := 0\ntry {\n  l[f()](2)\n} except e {\n  r := e.type\n}\nr",
+	"l := [func (x) {\n  return x\n}]\nl[len(5)](3)",
+	"m := {\"a\" : func () {\n  return 7\n}}\nm[undefinedFunc()]()",
+	"k := 0\nl := []\nfunc f1(p) {\n  n := 2 % k\n  return p\n}\nr := 0\ntry {\n  k := l[f1(l)]\n  (\"1\" hasprefix \"a\")\n} except e {\n  r := e.type\n}\nr",
 	"f := func (a) {\n  return a\n}\nmm := {f : 1}\n[f == f, f != null, f(1), mm[f]]",
 	"func f(a, b=a) {\n  return b\n}\nf(1)",
 	"d := 7\nfunc f(a=d) {\n  return a\n}\nfunc g() {\n  d := 8\n  return f()\n}\ng()",
